@@ -271,6 +271,34 @@ where
   }
 }
 
+/// Upper bound on what is allocated up front for a length announced in a CBOR
+/// head. The announced length comes from untrusted input and may exceed the
+/// input itself, so buffers grow as data actually arrives.
+const MAX_PREALLOC: usize = 4096;
+
+/// Read exactly `n` bytes without trusting `n` for the initial allocation.
+fn read_exact_bounded<R: ciborium_io::Read>(
+  decoder: &mut Decoder<R>,
+  n: usize,
+) -> Result<Vec<u8>, DecodeError>
+where
+  ciborium_ll::Error<R::Error>: Into<DecodeError>,
+{
+  let mut buf = Vec::with_capacity(n.min(MAX_PREALLOC));
+  let mut chunk = [0u8; MAX_PREALLOC];
+  let mut remaining = n;
+  while remaining > 0 {
+    let k = remaining.min(MAX_PREALLOC);
+    decoder.read_exact(&mut chunk[..k]).map_err(|e| {
+      let io_err: ciborium_ll::Error<R::Error> = ciborium_ll::Error::Io(e);
+      io_err.into()
+    })?;
+    buf.extend_from_slice(&chunk[..k]);
+    remaining -= k;
+  }
+  Ok(buf)
+}
+
 fn read_bytes<R: ciborium_io::Read>(
   decoder: &mut Decoder<R>,
   len: Option<usize>,
@@ -279,14 +307,7 @@ where
   ciborium_ll::Error<R::Error>: Into<DecodeError>,
 {
   match len {
-    Some(n) => {
-      let mut buf = vec![0u8; n];
-      decoder.read_exact(&mut buf).map_err(|e| {
-        let io_err: ciborium_ll::Error<R::Error> = ciborium_ll::Error::Io(e);
-        io_err.into()
-      })?;
-      Ok(buf)
-    }
+    Some(n) => read_exact_bounded(decoder, n),
     None => {
       // Indefinite-length bytes: read segments until break
       let mut result = Vec::new();
@@ -315,11 +336,7 @@ where
 {
   match len {
     Some(n) => {
-      let mut buf = vec![0u8; n];
-      decoder.read_exact(&mut buf).map_err(|e| {
-        let io_err: ciborium_ll::Error<R::Error> = ciborium_ll::Error::Io(e);
-        io_err.into()
-      })?;
+      let buf = read_exact_bounded(decoder, n)?;
       String::from_utf8(buf).map_err(|_| DecodeError::Syntax(decoder.offset()))
     }
     None => {
@@ -350,7 +367,7 @@ where
 {
   match len {
     Some(n) => {
-      let mut items = Vec::with_capacity(n);
+      let mut items = Vec::with_capacity(n.min(MAX_PREALLOC));
       for _ in 0..n {
         items.push(decode_value(decoder)?);
       }
@@ -382,7 +399,7 @@ where
 {
   match len {
     Some(n) => {
-      let mut entries = Vec::with_capacity(n);
+      let mut entries = Vec::with_capacity(n.min(MAX_PREALLOC));
       for _ in 0..n {
         let key = decode_value(decoder)?;
         let val = decode_value(decoder)?;
